@@ -168,6 +168,22 @@ def run(ctx):
                     res.check(lo_i.value >= 2, "B-MAXSIZE", mfi.short, norm(n), "low>=2", "a drawn hyperedge size can be below 2", loc(mfi, n))
         if not n_draws:
             res.unknown("B-MAXSIZE", "HyMMSBMSampler", "hye_size = self._rng.integers(2, max_hye_size + 1)", "high<=max_hye_size+1", "no random draw of a hyperedge size recognised", "")
+    # ---- Y-MATCH: when the greedy construction runs out of nodes with residual degree the sequences did not match: that path
+    #      records it (matching_sequences = False) whatever it does next (fill up with zero-degree nodes / shrink the hyperedge)
+    with res.guard("Y-MATCH"):
+        res.rules["Y-MATCH"] = "the path on which the degree / size sequences cannot be realised sets matching_sequences = False before it fills up or shrinks the hyperedge"
+        ev_ = ctx.view("HyMMSBMSampler._extract_hye")
+        handlers = [h_ for t_ in ast.walk(ev_.fi.node) if isinstance(t_, ast.Try) for h_ in t_.handlers if h_.type is not None and "StopIteration" in norm(h_.type)]
+        if not handlers:
+            res.unknown("Y-MATCH", ev_.fi.short, "except StopIteration:", "records-mismatch", "the place where the construction runs out of nodes was not recognised", loc(ev_.fi, ev_.fi.node))
+        for h_ in handlers:
+            sets = [x for x in ast.walk(h_) if isinstance(x, ast.Assign) and any(is_self_attr(t, "matching_sequences") for t in x.targets) and isinstance(x.value, ast.Constant) and x.value.value is False]
+            top = [x for x in h_.body if x in sets]
+            raises = any(isinstance(x, ast.Raise) for x in h_.body)
+            # does the function hand the mismatch back to its caller instead (a second return value)?
+            rets = [r for r in walk_no_nested(ev_.fi.node) if isinstance(r, ast.Return) and isinstance(r.value, ast.Tuple)]
+            st_ = "ok" if top or raises else ("unknown" if sets or rets else "violation")
+            res.add("Y-MATCH", ev_.fi.short, "except StopIteration: self.matching_sequences = False", "records-mismatch", st_, "" if st_ == "ok" else "the construction runs out of nodes with residual degree without recording that the sequences do not match: a hyperedge filled up with zero-degree nodes has full size, so the caller cannot notice, and sample() reports an unrealisable conditioning as matching", loc(ev_.fi, h_))
     with res.guard("Y-WEIGHTED"):
         v = ctx.view("HyMMSBMSampler.sample")
         f = v.fi.short
